@@ -405,7 +405,7 @@ func runProperty(id, tier string) int {
 		if keep == 0 {
 			keep = 50
 			if tier == "thorough" {
-				keep = 400
+				keep = 100 // per harness configuration (400 made the native replays dominate thorough runs)
 			}
 		}
 		rep, err := eng.RunHarness(hs.Name, keep)
